@@ -28,7 +28,11 @@ MIXES = {
     # Reservoir Porosity is limited to [0, 100]: about half of these iterations fail
     'half-fail': [('Reservoir Porosity', 'uniform', 50.0, 150.0), ('Reservoir Temperature', 'uniform', 130, 170)],
     'past-limit-normal': [('Reservoir Porosity', 'normal', 97.0, 4.0), ('Reservoir Thickness', 'uniform', 0.122, 0.299)],
+    # every sampled input discrete: different iterations legitimately draw the same vector and write the same row text — each still owns a row
+    'all-discrete': [('Reservoir Porosity', 'binomial', 12, 0.5)],
 }
+# SI quantities of tiny magnitude (numpy prints the draws in exponent notation): support and distinctness must survive the text the sample is turned into
+GEO_TINY = [('Reservoir Permeability', 'lognormal', -29.9, 0.5), ('Gradient 1', 'uniform', 30, 60), ('Reservoir Thermal Conductivity', 'uniform', 2.5, 3.5)]
 GEO_MIX = [('Gradient 1', 'uniform', 30, 60), ('Utilization Factor', 'uniform', 0.7, 0.95), ('Ambient Temperature', 'triangular', 15, 20, 25), ('Reservoir Heat Capacity', 'normal', 1000, 30)]
 GEO_OUTPUTS = ['Average Net Electricity Production', 'Electricity breakeven price', 'Total capital costs']
 
@@ -169,16 +173,24 @@ def run(chk: core.Check) -> int:
                      'settings': mc.settings_text(inputs, outputs, iterations)})
 
     plan = [('uniform5', 40, 16), ('uniform5', 7, 2), ('all-kinds', 40, 5), ('one-input', 24, 16), ('half-fail', 30, 5), ('uniform5', 1, 1), ('all-kinds', 9, 1),
-            ('half-fail', 160, 16), ('past-limit-normal', 40, 8)]   # >= 8 x CPUs iterations with failures: batching of tasks must not let a failure swallow its neighbours
+            ('half-fail', 160, 16), ('past-limit-normal', 40, 8), ('all-discrete', 40, 5)]   # >= 8 x CPUs iterations with failures: batching of tasks must not let a failure swallow its neighbours
     if not quick:
         plan += [('uniform5', 300, 16), ('all-kinds', 300, 16), ('half-fail', 120, 16), ('one-input', 100, 3), ('uniform5', 64, 2), ('all-kinds', 50, 2)]
     for mix, it, w in plan:
         add('HIP_RA_X', mix, MIXES[mix], mc.HIP_OUTPUTS[:2], mc.HIP_BASE, it, w)
     gbase = geo.params_to_text(geo.base_params(2, 1, 1, L=10, n=2))
     add('GEOPHIRES', 'geophires-mix', GEO_MIX, GEO_OUTPUTS, gbase, 12 if quick else 60, 4)
+    add('GEOPHIRES', 'tiny-magnitude', GEO_TINY, GEO_OUTPUTS, gbase, 8 if quick else 40, 4)
+    # a history: a one-iteration run, then an ordinary run from the SAME process — the second run's workers must be as fresh as any
+    add('HIP_RA_X', 'uniform5', MIXES['uniform5'], mc.HIP_OUTPUTS[:2], mc.HIP_BASE, 1, 16)
+    jobs[-1]['second'] = {'base': mc.HIP_BASE, 'settings': mc.settings_text(MIXES['uniform5'], mc.HIP_OUTPUTS[:2], 40)}
     res = mc.run_many(jobs, chk.scratch, parallel=2)
     for j, r in zip(jobs, res):
         analyse(chk, r, (j['program'], j['mix'], j['iterations'], j['workers']))
+        if j.get('second') and r.get('second'):
+            chk.tag('run/after-a-one-iteration-run-in-the-same-process')
+            j2 = {**j, 'settings': j['second']['settings'], 'iterations': 40, 'mix': j['mix'] + '/second-run-of-the-process'}
+            analyse(chk, {**r['second'], 'job': j2}, (j['program'], j['mix'], 'second', 40))
     # a stale lock left in the results directory by an earlier (killed) run must cost nothing and duplicate nothing
     jobs = []
     add('HIP_RA_X', 'uniform5', MIXES['uniform5'], mc.HIP_OUTPUTS[:2], mc.HIP_BASE, 24, 4)
